@@ -924,3 +924,143 @@ pub fn c08_batch(ctx: &mut Ctx, texts: &[&str]) {
     ctx.stratum("batch");
     ctx.nontrivial_cur();
 }
+
+// =====================================================================  C19
+
+fn c19_feats(ty: &str, call: &str, wf: bool) -> Feats {
+    vec![("family", FAM.into()), ("type", ty.into()), ("call", call.into()), ("octets", if wf { "utf8".into() } else { "ill-formed".into() })]
+}
+
+macro_rules! c19_typed {
+    ($ctx:expr, $name:literal, $T:ty, $s:expr, $via:expr) => {{
+        let s: &str = $s;
+        if let Ok(v) = <$T>::new(s) {
+            let want = model::pct_decode(s.as_bytes());
+            let wf_text: Option<String> = String::from_utf8(want.clone()).ok();
+            let wf = wf_text.is_some();
+            $ctx.stratum(concat!("type:", $name));
+            $ctx.stratum(if wf { "octets:utf8" } else { "octets:ill-formed" });
+            $ctx.stratum($via);
+            // the view itself
+            let view = match crate::ctx::guard(|| v.as_pct_str()) {
+                Ok(x) => x,
+                Err(m) => { $ctx.fail("C19.total", c19_feats($name, "as_pct_str", wf), format!("as_pct_str panicked: {}", m)); return; }
+            };
+            let dview: &_ = &**v; // Deref<Target = PctStr>
+            // octets (bounded: at most len items)
+            $ctx.call("bytes");
+            match crate::ctx::guard(|| { let mut out = Vec::new(); let mut it = view.bytes(); let lim = s.len() + 1; while let Some(x) = it.next() { out.push(x); if out.len() > lim { break; } } out }) {
+                Ok(got) => if got != want {
+                    $ctx.fail("C19.bytes", c19_feats($name, "bytes", wf), format!("{} {}: bytes() = {:02x?}, expected {:02x?}", $name, show(s.as_bytes()), got, want));
+                },
+                Err(m) => $ctx.fail("C19.total", c19_feats($name, "bytes", wf), format!("{} {}: bytes() panicked: {}", $name, show(s.as_bytes()), m)),
+            }
+            match crate::ctx::guard(|| dview.bytes().collect::<Vec<u8>>()) {
+                Ok(got) => if got != want { $ctx.fail("C19.bytes", c19_feats($name, "deref.bytes", wf), format!("{}: Deref view bytes differ", $name)); },
+                Err(m) => $ctx.fail("C19.total", c19_feats($name, "deref.bytes", wf), format!("panicked: {}", m)),
+            }
+            // chars / len / decode / == str
+            $ctx.call("chars");
+            let chars = crate::ctx::guard(|| { let mut out = String::new(); let mut n = 0; for c in view.chars() { out.push(c); n += 1; if n > s.len() + 1 { break; } } out });
+            $ctx.call("len");
+            let len = crate::ctx::guard(|| view.len());
+            $ctx.call("decode");
+            let dec = crate::ctx::guard(|| view.decode());
+            match &wf_text {
+                Some(t) => {
+                    match &chars { Ok(c) => if c != t { $ctx.fail("C19.text", c19_feats($name, "chars", wf), format!("{} {}: chars() = {:?}, expected {:?}", $name, show(s.as_bytes()), c, t)); }, Err(m) => $ctx.fail("C19.total", c19_feats($name, "chars", wf), format!("{} {}: chars() panicked: {}", $name, show(s.as_bytes()), m)) }
+                    match &len { Ok(l) => if *l != t.chars().count() { $ctx.fail("C19.text", c19_feats($name, "len", wf), format!("{} {}: len() = {}, expected {}", $name, show(s.as_bytes()), l, t.chars().count())); }, Err(m) => $ctx.fail("C19.total", c19_feats($name, "len", wf), format!("len() panicked: {}", m)) }
+                    match &dec { Ok(d) => if d != t { $ctx.fail("C19.text", c19_feats($name, "decode", wf), format!("{} {}: decode() = {:?}, expected {:?}", $name, show(s.as_bytes()), d, t)); }, Err(m) => $ctx.fail("C19.total", c19_feats($name, "decode", wf), format!("decode() panicked: {}", m)) }
+                    $ctx.call("eq-str");
+                    match crate::ctx::guard(|| (*view == *t.as_str(), *view == *format!("{}x", t).as_str(), if t.is_empty() { false } else { *view == t[..t.len() - t.chars().last().unwrap().len_utf8()] })) {
+                        Ok((same, longer, shorter)) => {
+                            if !same { $ctx.fail("C19.eq", c19_feats($name, "eq-str", wf), format!("{} {} != its own decoded text {:?}", $name, show(s.as_bytes()), t)); }
+                            if longer || shorter { $ctx.fail("C19.eq", c19_feats($name, "eq-str", wf), format!("{} {} compares equal to a different text", $name, show(s.as_bytes()))); }
+                        }
+                        Err(m) => $ctx.fail("C19.total", c19_feats($name, "eq-str", wf), format!("== str panicked: {}", m)),
+                    }
+                }
+                None => {
+                    if let Err(m) = &chars { $ctx.fail("C19.total", c19_feats($name, "chars", wf), format!("{} {}: chars() panicked: {}", $name, show(s.as_bytes()), m)); }
+                    if let Err(m) = &len { $ctx.fail("C19.total", c19_feats($name, "len", wf), format!("{} {}: len() panicked: {}", $name, show(s.as_bytes()), m)); }
+                    if let Err(m) = &dec { $ctx.fail("C19.total", c19_feats($name, "decode", wf), format!("{} {}: decode() panicked: {}", $name, show(s.as_bytes()), m)); }
+                    // never equate ill-formed or overlong sequences with well-formed text
+                    let lossy = String::from_utf8_lossy(&want).to_string();
+                    let mut probes: Vec<String> = vec![lossy, String::new(), "/".into(), "\0".into(), "A".into(), "\u{7ff}".into()];
+                    if let Ok(d) = &dec { probes.push(d.clone()); }
+                    if let Ok(c) = &chars { probes.push(c.clone()); }
+                    $ctx.call("eq-str");
+                    for p in probes {
+                        match crate::ctx::guard(|| *view == *p.as_str()) {
+                            Ok(true) => $ctx.fail("C19.equates", c19_feats($name, "eq-str", wf), format!("{} {} (octets {:02x?}, not well-formed UTF-8) compares equal to the well-formed text {:?}", $name, show(s.as_bytes()), want, p)),
+                            Ok(false) => {}
+                            Err(m) => $ctx.fail("C19.total", c19_feats($name, "eq-str", wf), format!("{} {}: == str panicked: {}", $name, show(s.as_bytes()), m)),
+                        }
+                    }
+                }
+            }
+        } else {
+            $ctx.stratum("skipped:rejected-by-library");
+        }
+    }};
+}
+
+/// kind: 2 userinfo, 3 host, 4 segment, 5 query, 6 fragment
+pub fn c19(ctx: &mut Ctx, s: &str, kind: u64) {
+    match kind {
+        2 => { c19_typed!(ctx, "UserInfo", UserInfo, s, "via:standalone"); }
+        3 => { c19_typed!(ctx, "Host", Host, s, "via:standalone"); }
+        4 => { c19_typed!(ctx, "Segment", Segment, s, "via:standalone"); }
+        5 => { c19_typed!(ctx, "Query", Query, s, "via:standalone"); }
+        _ => { c19_typed!(ctx, "Fragment", Fragment, s, "via:standalone"); }
+    }
+    c19_owned(ctx, s, kind);
+    ctx.nontrivial_cur();
+}
+
+fn c19_owned(ctx: &mut Ctx, s: &str, kind: u64) {
+    let want = model::pct_decode(s.as_bytes());
+    let wf = std::str::from_utf8(&want).is_ok();
+    macro_rules! own_one {
+        ($name:literal, $TBuf:ty) => {{
+            if let Ok(o) = <$TBuf>::new(own(s)) {
+                ctx.call("into_pct_string");
+                match crate::ctx::guard(|| { let p = o.into_pct_string(); (p.as_bytes().to_vec(), p.bytes().collect::<Vec<u8>>()) }) {
+                    Ok((text, bytes)) => {
+                        if text != s.as_bytes() || bytes != want {
+                            ctx.fail("C19.bytes", c19_feats($name, "into_pct_string", wf), format!("{}Buf::into_pct_string of {}: text {} octets {:02x?}", $name, show(s.as_bytes()), show(&text), bytes));
+                        }
+                    }
+                    Err(m) => ctx.fail("C19.total", c19_feats($name, "into_pct_string", wf), format!("into_pct_string panicked: {}", m)),
+                }
+            }
+        }};
+    }
+    match kind {
+        2 => own_one!("UserInfo", UserInfoBuf),
+        3 => own_one!("Host", HostBuf),
+        5 => own_one!("Query", QueryBuf),
+        6 => own_one!("Fragment", FragmentBuf),
+        _ => {}
+    }
+}
+
+/// Components extracted from a full reference.
+pub fn c19_embedded(ctx: &mut Ctx, s: &str) {
+    let Ok(r) = RiRef::new(s) else { return };
+    if let Some(a) = r.authority() {
+        if let Some(u) = a.user_info() { let t = u.as_str().to_string(); c19_typed!(ctx, "UserInfo", UserInfo, &t, "via:embedded"); }
+        let t = a.host().as_str().to_string();
+        c19_typed!(ctx, "Host", Host, &t, "via:embedded");
+    }
+    let mut n = 0;
+    for sg in r.path().segments() {
+        let t = sg.as_str().to_string();
+        c19_typed!(ctx, "Segment", Segment, &t, "via:embedded");
+        n += 1;
+        if n > 6 { break; }
+    }
+    if let Some(q) = r.query() { let t = q.as_str().to_string(); c19_typed!(ctx, "Query", Query, &t, "via:embedded"); }
+    if let Some(f) = r.fragment() { let t = f.as_str().to_string(); c19_typed!(ctx, "Fragment", Fragment, &t, "via:embedded"); }
+    ctx.nontrivial_cur();
+}
